@@ -317,6 +317,8 @@ pub(crate) const BUFFER_SIZE: usize = 256;
 const MAX_BUFFER_SIZE: usize = 100 * 1024 * 1024; // Don't allow buffers over 100MB.
 #[cfg(zlink_verif_small_buf)]
 /// Verification hook: a limit small enough to sweep every size around it.
-const MAX_BUFFER_SIZE: usize = 16 * 1024;
+const MAX_BUFFER_SIZE: usize = 83 * BUFFER_SIZE; // deliberately not a power of two
+#[cfg(zlink_verif)]
+pub(crate) const VERIF_MAX_BUFFER_SIZE: usize = MAX_BUFFER_SIZE;
 
 static NEXT_ID: AtomicUsize = AtomicUsize::new(0);
